@@ -47,7 +47,9 @@ def _init_colorama():
     global _colorama_initialized
     if not _colorama_initialized:
         _colorama_initialized = True
-        colorama.init()
+        # strip=False: the wrapper replaces sys.stdout for the whole process, so every Printer created from now on writes
+        # through it; by default it would remove the escapes of those printers whenever the stream is not a terminal
+        colorama.init(strip=False)
 
 
 class Writer(Protocol):
